@@ -623,10 +623,10 @@ async def run_probe(conn: Conn, obs: Obs) -> None:
     elif not selected:
         obs.state = St('AUTH', user)
     else:
-        box = {'A': 'BoxA', 'B': 'BoxB', 'U': 'BoxU'}.get(marker or '', '?')
+        which = {'A': 'BoxA', 'B': 'BoxB', 'U': 'BoxU'}.get(marker or '', '?')
         mode = 'rw' if conds['STORE'] == 'OK' else \
             'ro' if (r_s is not None and r_s.cond == b'NO') else '?'
-        obs.state = St('SELECTED', user, box, mode)
+        obs.state = St('SELECTED', user, which, mode)
 
 
 def _fetch_marker(r: Result) -> str | None:
@@ -733,7 +733,7 @@ def selected_count(dump: dict[str, Any], st: St) -> int | None:
 
 def expect(sym: Sym, st: St, caps: tuple[bytes, ...],
            dump: dict[str, Any], code: bytes | None) -> Exp:
-    same = (st,)
+    same: tuple[St, ...] = (st,)
     authed = st.phase in ('AUTH', 'SELECTED')
     if sym.kind == 'invalid':
         after = same
@@ -743,12 +743,13 @@ def expect(sym: Sym, st: St, caps: tuple[bytes, ...],
     ext = b'UIDPLUS' if sym.name == 'UID_EXPUNGE' \
         else EXTENSION.get(sym.cmd)
     unadvertised = ext is not None and ext not in caps
+    ext_name = (ext or b'').decode()
     if sym.klass == 'any':
         if sym.cmd == 'LOGOUT':
             return Exp(_OK, None, St('LOGOUT'), same, None, 'LOGOUT')
         if unadvertised:
             return Exp(_ANY, None, st, same, 'extension-not-advertised',
-                       '%s not advertised' % ext.decode())
+                       '%s not advertised' % ext_name)
         return Exp(_OK, None, st, same, None, 'any-state command')
     if sym.klass == 'nonauth':
         if authed:
@@ -802,7 +803,7 @@ def expect(sym: Sym, st: St, caps: tuple[bytes, ...],
         return Exp(_OK, None, St('AUTH', st.user), same, None, 'CLOSE')
     if unadvertised:
         return Exp(_ANY, None, st, same, 'extension-not-advertised',
-                   '%s not advertised' % ext.decode())
+                   '%s not advertised' % ext_name)
     if sym.kind == 'baddone':
         return Exp(_ANY, None, st, same, 'idle-not-done',
                    'IDLE ended by something other than DONE')
@@ -1129,8 +1130,8 @@ def gen_sequence(rng: random.Random, cfg: str) -> list[str]:
         s = SYMS[name]
         if name == 'STARTTLS':
             tls = True
-        elif phase == 'NOTAUTH' and name in ('LOGIN_OK', 'AUTH_OK',
-                                              'AUTH_U2') and tls:
+        elif phase == 'NOTAUTH' and tls and name in (
+                'LOGIN_OK', 'AUTH_OK', 'AUTH_U2'):
             phase = 'AUTH'
         elif phase != 'NOTAUTH' and name in selects:
             phase = 'SELECTED'
@@ -1146,24 +1147,35 @@ class C05(Check):
             '(every built-in command x valid / invalid-argument / '
             'missing-mailbox / bad-credential variants, SELECT vs EXAMINE of '
             'two marked mailboxes, AUTHENTICATE exchanges, IDLE+DONE, '
-            'STARTTLS): exhaustive cases run one prefix and ALL its '
-            'one-symbol extensions (all sequences of length <= 2 quick, <= 3 '
-            'thorough, see counters exhaustive_len*), matrix cases run every '
-            'symbol from every canonical automaton state, random cases one '
-            'seeded sequence of length 4-14 (deduplicated in the generator); '
-            'every prefix is re-executed as a cloned run with data dump and '
-            'probe suffix; distinct = hash of (config, sequences); '
-            'non-trivial = at least one step was judged with its state '
-            'revealed' % len(ALPHABET))
+            'STARTTLS). Exhaustive cases run one prefix and ALL its '
+            'one-symbol extensions: all sequences of length <= 2 (quick: '
+            'dict and dict-tls-remote; thorough: all four configurations) '
+            'and, thorough, all sequences of length 3 whose first two '
+            'symbols come from the %d-symbol core alphabet (dict) -- see '
+            'counters exhaustive_len*. Matrix cases run every symbol from '
+            'every canonical automaton state (state_symbol_pairs is distinct '
+            'by construction). Random cases are one seeded sequence of '
+            'length 4-14 each, deduplicated in the generator. Every prefix '
+            'is re-executed as a cloned run with data dump and probe suffix; '
+            'distinct = hash of the case spec (all specs differ); '
+            'non-trivial = at least one step was judged with the state after '
+            'it revealed' % (len(ALPHABET), len(CORE)))
     assumptions = [
         'bad_command_limit is switched off (a BYE after 5 consecutive BAD '
         'answers is RFC-legal and owned by C06)',
         'the server is deterministic across fresh environments (checked: '
-        'nondeterministic_clones must stay 0)',
+        'a clone whose earlier answers differ aborts the case, counter '
+        'nondeterministic_clones)',
         'sequences longer than 14 commands are not explored; the STARTTLS '
         'handshake itself is a no-op on the in-memory transport',
-        'exhaustive to depth 3 on dict without TLS only; depth 2 on the '
-        'TLS / remote-peer / maildir configurations']
+        'depth-3 sweep on dict without TLS only, prefixes from the core '
+        'alphabet (invalid-argument variants are answered by the parser '
+        'before any state is consulted; one per command class is kept)',
+        'configurations: dict, dict with STARTTLS (local peer), dict with '
+        'STARTTLS and a remote peer (LOGINDISABLED until STARTTLS), maildir '
+        '(++ layout); redis cannot run here',
+        'pysasl.entry_points (package metadata lookup on every new '
+        'connection) is memoized in the worker for speed']
     floors = {'steps_judged': 15000, 'states_revealed': 14000,
               'refusals_checked_no_effect': 8000, 'probe_runs': 15000,
               'state_symbol_pairs': 900, 'glass_comparisons': 10000,
@@ -1221,6 +1233,24 @@ class C05(Check):
     def setup_worker(self) -> None:
         shadow.install_glass()
         _memoize_entry_points()
+
+    def extra_evidence(self, agg: dict[str, Any]) -> dict[str, Any]:
+        c = agg['counters']
+        sweeps = {}
+        for k, want in sorted(self.floors.items()):
+            if k.startswith('exhaustive_len'):
+                sweeps[k] = {'enumerated': c.get(k, 0), 'expected': want,
+                             'complete': c.get(k, 0) == want}
+        return {'alphabet': ALPHABET, 'core_alphabet': CORE,
+                'exhaustive_sweeps': sweeps,
+                'exhaustive_note': (
+                    'len1/len2: all sequences over the full alphabet per '
+                    'configuration; len3 (thorough): first two symbols from '
+                    'the core alphabet, third from the full alphabet, dict '
+                    'configuration; sequences that cannot be sent because '
+                    'the server closed the connection earlier (LOGOUT) are '
+                    'enumerated but not run (exhaustive_len*_connection_'
+                    'gone)')}
 
     def run_case(self, spec: dict[str, Any]) -> dict[str, Any]:
         random.seed(spec.get('seed', 0))
